@@ -29,7 +29,7 @@ class Tokenizer:
     _linesep = '\n'
     # an escaped backslash is matched first so it cannot start a unicode escape
     unicodesub = re.compile(r'\\\\|\\[0-9a-fA-F]{1,6}(?:\r\n|[\t\r\n\f\x20])?').sub
-    # for STRING and INVALID: like unicodesub, and a line continuation
+    # for STRING, INVALID and URI: like unicodesub, and a line continuation
     # (backslash + newline) is removed in the same pass over the source text,
     # so that a newline written as an escape is never taken for a continuation
     stringsub = re.compile(
@@ -229,7 +229,7 @@ class Tokenizer:
                         ):
                             # may contain unicode escape, replace with normal
                             # char but do not _normalize (?)
-                            if name in ('STRING', 'INVALID'):  # 'URI'?
+                            if name in ('STRING', 'INVALID', 'URI'):
                                 # also remove \ followed by nl (so escaped) from string
                                 value = self.stringsub(_repl, found)
                             else:
